@@ -23,6 +23,9 @@ def sum_of_squares(
     fill_value=None,
     dtype=None,
 ):
+    if dtype is not None:
+        # square in the accumulation dtype: the squares of int8 values do not fit int8
+        array = array.astype(np.result_type(array.dtype, dtype), copy=False)
     return _get_aggregate(engine).aggregate(
         group_idx,
         array,
@@ -44,6 +47,9 @@ def nansum_of_squares(
     fill_value=None,
     dtype=None,
 ):
+    if dtype is not None:
+        # square in the accumulation dtype: the squares of int8 values do not fit int8
+        array = array.astype(np.result_type(array.dtype, dtype), copy=False)
     return _get_aggregate(engine).aggregate(
         group_idx,
         array,
